@@ -49,9 +49,12 @@
    What (D) does NOT cover (outside the model):
      - labels are opaque: a label containing a newline byte is ONE line here but two in the text
        (a back-quoted name with a raw newline is printed unescaped: see the harness report);
-     - a function that owns a builder (Explain, ExplainStatements) called from a printing function
+     - a function that owns a builder (Explain, ExplainStatements) called from inside the package
        would insert a rendering that starts at depth 0 as data; the translator lists such a call
-       as `nested-root` (none today);
+       as `nested-root` (never accepted; none today), EXCEPT when the callee is a LINE ROOT
+       (exprFallbackText: it hands out nothing but `line, _, _ := strings.Cut(sb.String(), "\n")`):
+       its result has no newline and does not depend on any depth, it is label data like any
+       other string, and a caller that writes it at a line start is still a `raw-write`;
      - fmt/strings behave as documented; panics and non-termination are excluded by hypothesis.
    ============================================================================================ *)
 From Coq Require Import List String ZArith Bool Lia.
